@@ -32,7 +32,14 @@ def case_st(draw):
     full = draw(st.integers(0, 14)) == 0
     nsides = draw(st.sampled_from([1, 1, 2]))
     variant = draw(st.sampled_from(["acorn", "acorn", "watford"]))
-    if full:
+    if draw(st.integers(0, 7)) == 0:
+        # Opus DDOS needs a full-size double-density disc (its volume table states the disc size): drawn on purpose,
+        # in every flux container and mostly two-sided, since the plain draw above would reach it in ~0.1 % of cases
+        kind = draw(st.sampled_from(["hfe1", "hfe3", "mfm"]))
+        encoding, spt, full, variant = "MFM", 18, True, "opus"
+        nsides = draw(st.sampled_from([1, 2, 2]))
+        tracks = draw(st.sampled_from([35, 35, 35, 40, 80]))
+    elif full:
         tracks = draw(st.sampled_from([35, 40, 80] if spt != 16 else [40]))
         if spt == 18 and draw(st.booleans()):
             variant = "opus"
